@@ -211,3 +211,27 @@ Proof.
   - intros [H|H]; [left; exact H|]. destruct (Z.eq_dec x a) as [E|E]; [left; symmetry; exact E|].
     right. apply filter_In. split; [apply IH; exact H|]. apply negb_true_iff. apply Z.eqb_neq. exact E.
 Qed.
+
+Theorem rename_data : forall t conv t',
+  NoDup (keys conv) -> rename_fields t conv = Ok t' ->
+  (NoDup (keys (ren_pairs t conv)) ->
+     forall old new c, In (old, new) conv -> alookup old t = Some c -> alookup new t' = Some c) /\
+  (forall n, zmem n (keys (ren_pairs t conv)) = false ->
+     alookup n t' = if zmem n (keys conv) then None else alookup n t).
+Proof.
+  intros t conv t' Hnd H. split.
+  - intros Hnew old new c Hin Hc. eapply rename_lookup_new; eassumption.
+  - intros n Hn. apply rename_lookup_other; assumption.
+Qed.
+
+Theorem new2orig_all : forall ren names,
+  NoDup (map snd ren) ->
+  conv_new2orig names ren
+    = map (fun n => match alookup n (map (fun kv => (snd kv, fst kv)) ren) with Some o => o | None => n end) names
+  /\ (forall o n, In (o, n) ren -> In n names -> In o (conv_new2orig names ren))
+  /\ (forall n, ~ In n (map snd ren) -> In n names -> In n (conv_new2orig names ren)).
+Proof.
+  intros ren names Hnd. split; [apply new2orig_spec; exact Hnd|]. split.
+  - intros o n. apply new2orig_renamed. exact Hnd.
+  - intros n. apply new2orig_plain. exact Hnd.
+Qed.
